@@ -177,6 +177,22 @@ FINDINGS = [
          cases=[c02_case([("int_lit", "top"), ("bool_expr", "top"), ("int_expr", "top")], "x = 3; x, side1 = a > 2, 1; x = a + 1; d = x", ("plain", "tuple", "plain"))]),
     dict(id="KF-C11-elif-quadratic", property="C11", status="fixed", commit="3b8dc05",
          what="an elif header with a long run of blanks inside its condition took quadratic time (40 000 blanks: 6 s; 80 000: killed after 20 s)", cases=[]),
+    dict(id="KF-C02-forward-helper-call", property="C02", status="fixed", commit="2d2f5dd",
+         what="a helper calling a helper defined further down was analysed with an unknown callee: result assumed int (report(x) returning scaled(x) / 2 truncated 0.5 to 0), no float variant generated",
+         cases=[prog("C02", c02.PRO + "def report(x):\n    return scaled(scaled(x))\ndef scaled(x):\n    return x / 2\n" + "\n".join(c02.HEAD) + "\nt0 = report(2)\nmon.write(t0)\n", [{"passes": 0, "ar": {"A0": [6]}}], "caller defined above the callee", space="T")]),
+    dict(id="KF-C02-device-getter-types", property="C02", status="fixed", commit="c3e0fac",
+         what="device getters returning float / bool / str were typed int: v = m.get_speed() stored 0 for 0.25, mode = m.get_mode() did not compile",
+         cases=[c02_case([("get_speed", "top")], "v = mot.get_speed()"), c02_case([("get_mode", "loop")], "v = mot.get_mode() in the main loop")]),
+    dict(id="KF-C04-argument-evaluated-in-place", property="C04", status="fixed", commit="ee663b6",
+         what="device-call arguments were inlined wherever the emitted code needs them: led.blink(pot.read()) read the ADC for every wait, m.run_for(40 * m.get_speed(), -1.0) and led.blink(led.get_brightness() // 16) read the getter after the method had changed the state", cases=[]),
+    dict(id="KF-C06-list-append-conversion", property="C06", status="fixed", commit="abefdf0",
+         what="names.append(\"q\"), fl.append(3.5), fl.append(int_var), names.remove(\"ab\") did not compile (element type deduced from the value as well)", cases=[]),
+    dict(id="KF-C11-inf-pattern-entry", property="C11", status="fixed", commit="e1aa71d",
+         what="led.flash_pattern([1e999]) / lcd.glyph(0, [inf, ...]) leaked OverflowError from int()", cases=[]),
+    dict(id="KF-C15-handler-sees-stale-sample", property="C15", status="fixed", commit="5f116bf",
+         what="buttons were sampled, edge-checked and their handlers called one after the other, the sample being published after the handler: is_pressed() inside a handler returned the previous pass's level (own button, and every button polled later)", cases=[]),
+    dict(id="KF-C19-motor-nan", property="C19", status="fixed", commit="ec196d8",
+         what="DCMotor.set_speed(float('nan')) stored NaN as the speed (|speed| <= 1 violated; mode 'drive' with a NaN applied speed)", cases=[]),
     dict(id="KF-C14-lcd-rebind", property="C14", status="open", commit=None,
          what="one name bound first to a parallel LCD and later to an I2C LCD (or the reverse): both libraries are requested, but the emitter keeps only the first display (one header, one object); outside the documented style, like KF-C05-rebind",
          cases=c14_rebind_cases()),
